@@ -23,6 +23,12 @@ CHECKS["C01"] = dict(
   note="Trusted: symgo executor, z3. Bounds: <=2 packages (quick) / 3 (thorough) per message, total length <= 3 packet bodies + 1 (2 in the two-message harness), 2 successive messages. Outside: longer messages, packet-size change in the middle of a message, transport write errors.",
   ref="DESIGN.md §4 C01")
 
+CHECKS["C07"] = dict(
+  technique="symbolic execution of go/ssa with SMT (z3): for every token of LookupPackage, N arbitrary (symbolic) bytes; whenever the complete buffer parses, every proper prefix of the consumed bytes must give ErrNotEnoughBytes and the retry must reproduce the package",
+  text="Bounded symbolic model checking of every ReadFrom reachable from LookupPackage (28 tokens incl. narrow/wide variants) together with field.go format readers and PacketQueue.Bytes. Relative formulation: the buffer content is fully symbolic, so the solver ranges over all valid encodings of at most N bytes (valid = the parser itself accepts the complete buffer); for each cut position the truncated parse must fail with an error that errors.Is ErrNotEnoughBytes (no success, no other error, no panic) and, after rollback and arrival of the rest, a fresh parse must consume the same bytes and yield a deep-equal package.",
+  note="Trusted: symgo executor (errors.Is/fmt.Errorf %w chain model, bytes.Buffer model), z3. Bounds: encodings of at most N bytes per token (N between 2 and 22 in quick, up to 26 in thorough; listed per harness in the evidence), at most 4 format fields; cut positions are case-split by the executor, contents/lengths/field values are decided by the solver. Outside: ROW/PARAMS data (need a preceding format; covered by C02 shapes), TokenlessPackage (no defined end), longer encodings.",
+  ref="DESIGN.md §4 C07")
+
 NOT_APPLICABLE = {
 }
 
